@@ -1,6 +1,7 @@
 import AslModel.WebSocket
 import AslProofs.WebSocket
 import AslProofs.WebSocketClient
+import AslProofs.WebSocketCut
 import AslProofs.Sha1
 import AslProps.C15
 /-!
@@ -385,9 +386,10 @@ theorem cut_frame_is_terminal (fin : Bool) (op : Nat) (hop : op < 16) (key : Opt
     exactly the payloads of the messages wholly before the cut.  Every cut position strictly inside a frame
     is proved above (`truncation_partial`: first frame of a message or a control frame between messages;
     `truncation_inside_message`: any later frame of a message), cuts between messages are `messages_intact`
-    on the shorter conversation.  Not proved: the arithmetic step "every `k` is one of these positions", and
-    a cut exactly at a frame boundary inside a message (validated by the correspondence check on every
-    offset of short streams; `hostile_safe` covers it for safety). -/
+    on the shorter conversation.  a cut exactly at a frame boundary inside a message is
+    `truncation_after_first_frame` / `truncation_at_boundary_inside_message` (below).  Not proved: the arithmetic step "every
+    `k` is one of these positions" (validated by the correspondence check on every offset of short streams; `hostile_safe`
+    covers it for safety). -/
 def truncation_full : Prop :=
   ∀ (isClient : Bool) (rng : Rng) (ms : List Rfc6455.Msg) (trailing : List Rfc6455.Ctl) (k : Nat),
     (∀ m ∈ ms, MsgFits m) → CtlsFit trailing → (∀ m ∈ ms, m.payload ≠ []) →
@@ -485,6 +487,69 @@ example : (run { isClient := false, rng := ⟨1, 2, 3, 4⟩, inp := [0x01, 3, 0x
 example : (run { isClient := false, rng := ⟨1, 2, 3, 4⟩, inp := [0x01, 3, 0x61, 0x62, 0x63, 0x88, 0] }).1 = [[]] := by decide
 -- a frame cut inside its payload is not delivered
 example : (run { isClient := false, rng := ⟨1, 2, 3, 4⟩, inp := [0x81, 0x14, 0x61, 0x62, 0x63] }).1 = [[]] := by decide
+
+/-! ## a cut exactly at a frame boundary inside a fragmented message -/
+
+/-- a complete open data frame (FIN clear: first or continuation frame) followed by the end of the stream is `TerminalP`
+    (AslProofs/WebSocketCut.lean): the frame is consumed — or refused when it takes the message past the limit — and a reader
+    gives up with an empty result, closed, when `closed()` then sees the end of the stream -/
+theorem open_frame_then_eof (op : Nat) (hop : op ≤ 2) (key : Option Rfc6455.Key) (p : List UInt8) (hp : Fits p) :
+    TerminalP (Rfc6455.frame false op key p) := terminalP_open_frame op hop key p hp
+
+/-- the same for a complete ping or pong frame followed by the end of the stream, for a reader that is inside a message -/
+theorem control_frame_then_eof (x : Rfc6455.Ctl) (hx : Fits x.payload) : TerminalP x.bytes := terminalP_ctl x hx
+
+/-- **Cut exactly at a frame boundary inside a message, after the first frame**: the stream ends right after a whole open
+    continuation frame or a whole control frame (`tail`, by the two theorems above) that follows the first frame of `m`, open
+    continuation frames `t1` and control frames `cs`: exactly the complete messages before `m` are delivered, intact, once, in
+    order; nothing of `m` (repaired in 81c34a7); closed; no fault. -/
+theorem truncation_at_boundary_inside_message (isClient : Bool) (rng : Rng) (ms : List Rfc6455.Msg) (m : Rfc6455.Msg)
+    (t1 : List Rfc6455.Frag) (cs : List Rfc6455.Ctl) (tail : List UInt8) (ht : TerminalP tail)
+    (hfit : ∀ x ∈ ms, MsgFits x) (hne : ∀ x ∈ ms, x.payload ≠ []) (hfirst : FragFits m.first) (ht1 : ∀ f ∈ t1, FragFits f)
+    (htot : m.first.payload.length + (t1.flatMap (·.payload)).length ≤ 2147483632) (hcs : CtlsFit cs) :
+    let r := run { isClient := isClient, rng := rng,
+                   inp := ms.flatMap Rfc6455.Msg.bytes ++ (Rfc6455.ctlBytes m.first.before ++
+                     (Rfc6455.frame false (msgOp m) m.first.key m.first.payload ++ (Rfc6455.openBytes t1 ++
+                       (Rfc6455.ctlBytes cs ++ tail)))) }
+    r.1.filter (· ≠ []) = ms.map (·.payload) ∧ r.2.closed = true ∧ r.2.fault = false := by
+  intro r
+  have hall : (ms.map (·.payload)).filter (· ≠ []) = ms.map (·.payload) := by
+    apply List.filter_eq_self.mpr
+    intro q hq
+    obtain ⟨x, hx, rfl⟩ := List.mem_map.mp hq
+    simpa using hne x hx
+  obtain ⟨extra, c', h1, h2, h3, h4⟩ := receiveAll_terminalP_inside ms m t1 cs tail ht
+    { isClient := isClient, rng := rng,
+      inp := ms.flatMap Rfc6455.Msg.bytes ++ (Rfc6455.ctlBytes m.first.before ++
+        (Rfc6455.frame false (msgOp m) m.first.key m.first.payload ++ (Rfc6455.openBytes t1 ++ (Rfc6455.ctlBytes cs ++ tail)))) }
+    ⟨rfl, rfl⟩ hfit hfirst ht1 htot hcs rfl
+  have hr : r = (extra, c') := h1
+  rw [hr]; exact ⟨by rw [h2, hall], h3, h4⟩
+
+/-- **Cut exactly after the first frame of a fragmented message** (FIN clear, any control frames before it): the complete
+    messages before it are delivered, nothing of the message that was begun; closed; no fault. -/
+theorem truncation_after_first_frame (isClient : Bool) (rng : Rng) (ms : List Rfc6455.Msg) (cs : List Rfc6455.Ctl)
+    (op : Nat) (hop : op ≤ 2) (key : Option Rfc6455.Key) (p : List UInt8) (hp : Fits p)
+    (hfit : ∀ x ∈ ms, MsgFits x) (hne : ∀ x ∈ ms, x.payload ≠ []) (hcs : CtlsFit cs) :
+    let r := run { isClient := isClient, rng := rng,
+                   inp := ms.flatMap Rfc6455.Msg.bytes ++ (Rfc6455.ctlBytes cs ++ Rfc6455.frame false op key p) }
+    r.1.filter (· ≠ []) = ms.map (·.payload) ∧ r.2.closed = true ∧ r.2.fault = false := by
+  intro r
+  have hall : (ms.map (·.payload)).filter (· ≠ []) = ms.map (·.payload) := by
+    apply List.filter_eq_self.mpr
+    intro q hq
+    obtain ⟨x, hx, rfl⟩ := List.mem_map.mp hq
+    simpa using hne x hx
+  obtain ⟨extra, c', h1, h2, h3, h4⟩ := receiveAll_first_frame_eof ms cs op hop key p hp
+    { isClient := isClient, rng := rng, inp := ms.flatMap Rfc6455.Msg.bytes ++ (Rfc6455.ctlBytes cs ++ Rfc6455.frame false op key p) }
+    ⟨rfl, rfl⟩ hfit hcs rfl
+  have hr : r = (extra, c') := h1
+  rw [hr]; exact ⟨by rw [h2, hall], h3, h4⟩
+
+-- `01 03 abc` `00 01 d` <end of stream>, and `01 03 abc` `89 01 p` <end of stream>: nothing is delivered
+example : TerminalP (Rfc6455.frame false 0 none [100]) := open_frame_then_eof 0 (by decide) none [100] (by simp [Fits])
+example : (run { isClient := false, rng := ⟨1, 2, 3, 4⟩, inp := [0x01, 3, 0x61, 0x62, 0x63, 0x00, 1, 0x64] }).1 = [[]] := by decide
+example : (run { isClient := false, rng := ⟨1, 2, 3, 4⟩, inp := [0x01, 3, 0x61, 0x62, 0x63, 0x89, 1, 0x70] }).1 = [[]] := by decide
 
 /-! ## replies to control frames -/
 
